@@ -375,6 +375,25 @@ def _run_comp(case):
         c2 = np.array([ut.s1.center, ut.s2.center], dtype=float)
         resid["rigid_pos@translated"] = fnum(np.abs(c2 - (c0 + t)).max() / (np.abs(c0).max() + np.abs(t).max() + 1e-300))
         flags["original_untouched"] = bool(digest(u) == before)
+        # the union's own centre (its pivot) moves with it, so that a translation FOLLOWED by a rotation is the rotation about the moved
+        # pivot; and the union as a member of a composite is moved and turned like any other member
+        flags["centre_follows_translation"] = bool(np.allclose(np.asarray(ut.center, dtype=float), c0[0] + t, rtol=1e-13, atol=1e-13 * scale))
+        utr = ut.rotated(*ang)
+        c3 = np.array([utr.s1.center, utr.s2.center], dtype=float)
+        piv = c0[0] + t
+        exp3 = piv + (Rref @ ((c0 + t) - piv).T).T
+        resid["rigid_pos@translated_then_rotated"] = fnum(np.abs(c3 - exp3).max() / (np.abs(exp3).max() + scale))
+        extra = Sphere(n=1.4, r=float(rad[0]), center=[float(v) for v in cen[0] - 2 * scale])
+        comp_ = Scatterers([u, extra])
+        moved = comp_.translated(t)
+        top = np.array([np.asarray(m_.center, dtype=float) for m_ in moved.scatterers])
+        want = np.array([c0[0] + t, np.asarray(extra.center, dtype=float) + t])
+        resid["rigid_pos@composite_with_union"] = fnum(np.abs(top - want).max() / (np.abs(want).max() + scale))
+        turned = moved.rotated(*ang)
+        com = want.mean(0)
+        want_r = com + (Rref @ (want - com).T).T
+        top_r = np.array([np.asarray(m_.center, dtype=float) for m_ in turned.scatterers])
+        resid["rigid_pos@composite_with_union"] = fnum(max(resid["rigid_pos@composite_with_union"], np.abs(top_r - want_r).max() / (np.abs(want_r).max() + scale)))
         return {"resid": resid, "flags": flags, "shape": shape, "n": 2}
     if shape == "nested3" and n >= 3:
         # three levels, unbalanced: [A, [B, [C, D, ...]]]
